@@ -108,7 +108,7 @@ pub fn child(args: &[String]) {
         Ok(())
     })));
     let mut d = Deserializers::default();
-    d.insert("capture", CaptureDeserializer { sink: Arc::new(Mutex::new(vec![])), built: Arc::new(AtomicUsize::new(0)) });
+    d.insert("capture", CaptureDeserializer { sink: Arc::new(Mutex::new(vec![])), built: Arc::new(AtomicUsize::new(0)), slow_v3: Duration::from_millis(45) });
     let mut problems = vec![];
     if let Err(e) = log4rs::init_file(&path, d) {
         problems.push(json!({"what": "init_file failed", "error": e.to_string()}));
